@@ -413,14 +413,17 @@ class Cache(Filter[Iterable[Any], Iterable[Any]]):
         self._iter = None
 
     def _next_slice(self, n_slice:int) -> Sequence[Any]:
+        source = self._iter
         try:
-            return list(islice(self._iter,n_slice))
+            return list(islice(source,n_slice))
         except Exception:
             #What has been cached so far is not the complete sequence and the failed iterator can't
             #be continued. We forget both so the next read starts over rather than replaying (and
-            #then silently completing with) a truncated sequence.
-            self._iter  = None
-            self._cache = None
+            #then silently completing with) a truncated sequence. (If there is no source any more
+            #another reader finished the read in the meantime and the cache is complete.)
+            if source is not None:
+                self._iter  = None
+                self._cache = None
             raise
 
 class Insert(Filter[Iterable[Any], Iterable[Any]]):
